@@ -34,7 +34,7 @@ CONSTANTS
 INIT Init
 NEXT Next
 CONSTRAINT Bound
-INVARIANTS NeverHalts Consistent TopK CometIsRecord FundsConserved UnlockBounded DelayRespected DeliveredOnce
+INVARIANTS NeverHalts ReimportFixpoint Consistent TopK CometIsRecord FundsConserved UnlockBounded DelayRespected DeliveredOnce
 PROPERTIES TombstoneForever JailOnlyByDowntime UnjailOnlyAfter
 VIEW View
 CHECK_DEADLOCK FALSE
